@@ -25,10 +25,22 @@ import (
 func cliBin() string { return os.Getenv("VERIF_DESYNC_BIN") }
 
 // classes the CLI tier must populate when the command is available
-var cliRequired = []string{"cli:tar:stdout", "cli:tar:stdout:skipped-node-in-tree", "cli:tar-i:stdout", "cli:tar-i:stdout:skipped-node-in-tree", "cli:tar:file:skipped-node-in-tree", "cli:tar", "cli:tar:output-absent", "cli:tar:output-preexisting-shorter", "cli:tar:output-preexisting-longer",
+var cliRequired = []string{"cli:tar:no-time", "cli:tar:one-file-system", "cli:tar:stdout", "cli:tar:stdout:skipped-node-in-tree", "cli:tar-i:stdout", "cli:tar-i:stdout:skipped-node-in-tree", "cli:tar:file:skipped-node-in-tree", "cli:tar", "cli:tar:output-absent", "cli:tar:output-preexisting-shorter", "cli:tar:output-preexisting-longer",
 	"cli:tar:output-previous-bigger-archive", "cli:tar-i", "cli:tar-i:output-preexisting-longer", "cli:tar:root-spelling:non-canonical"}
 
 var priors = []string{"absent", "shorter", "longer", "bigger"}
+
+// tarArgs builds the command line of `desync tar` with the case's packing options.
+func tarArgs(c Case, rest ...string) []string {
+	a := []string{"tar"}
+	if c.NoTime {
+		a = append(a, "--no-time")
+	}
+	if c.OneFS {
+		a = append(a, "-x")
+	}
+	return append(a, rest...)
+}
 
 func priorClass(p string) string {
 	switch p {
@@ -116,11 +128,17 @@ func cliTar(o *hx.Outcome, c Case, dir, cwd, arg string, lib []byte, want *catar
 	// ---- desync tar <catar> <dir>
 	outPath := filepath.Join(dir, "out.catar")
 	writePrior(outPath, prior, lib, func() []byte { return biggerArchive(want, flags, len(lib)) })
-	msg, err, timedOut := runCLI(dir, cwd, "tar", outPath, arg)
+	msg, err, timedOut := runCLI(dir, cwd, tarArgs(c, outPath, arg)...)
 	if timedOut {
 		return // machine too busy: says nothing about the property
 	}
 	o.Class("cli:tar", "cli:tar:"+priorClass(prior))
+	if c.NoTime {
+		o.Class("cli:tar:no-time")
+	}
+	if c.OneFS {
+		o.Class("cli:tar:one-file-system")
+	}
 	if c.Spelling != "" && c.Spelling != "canonical" {
 		o.Class("cli:tar:root-spelling:non-canonical")
 	}
@@ -155,7 +173,7 @@ func cliTar(o *hx.Outcome, c Case, dir, cwd, arg string, lib []byte, want *catar
 		}
 		return ref.EncodeIndex(ref.IndexFile{Flags: ref.FlagSHA512256, Min: 16384, Avg: 65536, Max: 262144, Items: items})
 	})
-	msg, err, timedOut = runCLI(dir, cwd, "tar", "-i", "-s", store, idxPath, arg)
+	msg, err, timedOut = runCLI(dir, cwd, tarArgs(c, "-i", "-s", store, idxPath, arg)...)
 	if timedOut {
 		return
 	}
@@ -233,11 +251,17 @@ func checkIndexAgainst(o *hx.Outcome, sigPrefix, what string, b, lib []byte) {
 // cliTarStdout: `desync tar - <dir>` and `desync tar -i -s <store> - <dir>`. What arrives on
 // stdout must be exactly the archive (index); warnings about skipped nodes belong on stderr.
 func cliTarStdout(o *hx.Outcome, c Case, dir, cwd, arg string, lib []byte, special bool) {
-	stdout, msg, err, timedOut := runCLISplit(dir, cwd, "tar", "-", arg)
+	stdout, msg, err, timedOut := runCLISplit(dir, cwd, tarArgs(c, "-", arg)...)
 	if timedOut {
 		return
 	}
 	o.Class("cli:tar:stdout")
+	if c.NoTime {
+		o.Class("cli:tar:no-time")
+	}
+	if c.OneFS {
+		o.Class("cli:tar:one-file-system")
+	}
 	if special {
 		o.Class("cli:tar:stdout:skipped-node-in-tree")
 	}
@@ -261,7 +285,7 @@ func cliTarStdout(o *hx.Outcome, c Case, dir, cwd, arg string, lib []byte, speci
 
 	store := filepath.Join(dir, "store")
 	os.Mkdir(store, 0o755)
-	stdout, msg, err, timedOut = runCLISplit(dir, cwd, "tar", "-i", "-s", store, "-", arg)
+	stdout, msg, err, timedOut = runCLISplit(dir, cwd, tarArgs(c, "-i", "-s", store, "-", arg)...)
 	if timedOut {
 		return
 	}
